@@ -166,6 +166,33 @@ Theorem C15_limit :
 Proof. exact limit_spec. Qed.
 Print Assumptions C15_limit.
 
+(* Every kind of listing against any registry, documents of any size: either the listing
+   completes with exactly the expected items and every document it read fitted, or it
+   fails with a decode error at the first request j whose document does not fit, having
+   delivered only whole pages (the view of a prefix of the items) -- never items of a
+   truncated document, and no request after j. *)
+Theorem C15_limit_listing :
+  forall (L : list item) (cap : nat) (ds : nat -> decision)
+         (render : nat -> url -> url -> str) (trailer : nat -> str)
+         (resolve : url -> str -> option url) (c : cfg) (path last0 : str) (fuel : nat),
+    NoDup (map fst L) -> (forall it, In it L -> fst it <> []) ->
+    (forall i base x, In x (map fst L) ->
+       contains c_gt (render i base (link_target (ds i) base x)) = false) ->
+    (forall i base x, In x (map fst L) ->
+       resolve base (render i base (link_target (ds i) base x)) = Some (link_target (ds i) base x)) ->
+    (c_kind c = KReferrers -> forall i, qget k_at (d_extra (ds i)) = None) ->
+    (length (start_rest c last0 L) < fuel)%nat ->
+    let t := loop (reg_serve (c_kind c) L cap ds render trailer) resolve (fun _ => false) c
+                  fuel 0 0 (mkUrl path (start_query c)) last0 in
+    let fit := fun i => (Z.of_N (d_doc_len (ds i)) <= eff_limit (c_limit c))%Z in
+    (t_out t = Done /\ concat (t_pages t) = view c (start_rest c last0 L) /\
+     forall j, (j < length (t_reqs t))%nat -> fit j) \/
+    (t_out t = ErrDecode /\
+     exists n j, concat (t_pages t) = view c (firstn n (start_rest c last0 L)) /\
+                 length (t_reqs t) = S j /\ ~ fit j /\ forall j', (j' < j)%nat -> fit j').
+Proof. exact listing_limit. Qed.
+Print Assumptions C15_limit_listing.
+
 (* bytes: behind io.LimitReader a stream decoder sees at most the limit, and for a
    self-delimiting document d (value v) followed by anything it yields v when d fits and
    fails otherwise -- never a value decoded from a truncated document *)
@@ -245,4 +272,12 @@ Example C15_example_stops :
   let t := loop (reg_serve KTags ex_L 1 ex_ds ex_render (fun _ => [])) ex_resolve
                 (fun k => (k =? 1)%nat) (ex_cfg KTags) 9 0 0 (mkUrl (b "/v2/r/tags/list") []) [] in
   t_out t = ErrCallback /\ map (map fst) (t_pages t) = [[b "a"]; [b "b"]] /\ length (t_reqs t) = 2%nat.
+Proof. vm_compute. repeat split. Qed.
+
+(* a document over the limit on the second page: one whole page delivered, then ErrDecode *)
+Example C15_example_limit_listing :
+  let ds := fun i => mkDec 1 [] false [] [] (if (i =? 1)%nat then 101 else 100) 0 in
+  let t := loop (reg_serve KTags ex_L 1 ds ex_render (fun _ => [])) ex_resolve
+                (fun _ => false) (ex_cfg KTags) 9 0 0 (mkUrl (b "/v2/r/tags/list") []) [] in
+  t_out t = ErrDecode /\ map (map fst) (t_pages t) = [[b "a"]] /\ length (t_reqs t) = 2%nat.
 Proof. vm_compute. repeat split. Qed.
